@@ -4,7 +4,7 @@ from __future__ import annotations
 import ast
 
 from sa import source
-from sa.cfg import cfg_of, guards
+from sa.cfg import cfg_of, guards, facts, holds
 from sa.minieval import CannotEval, ev
 from sa.source import AnchorMissing, arg_of, dotted, is_self_attr, last_attr, local_defs, params_of, short, u, walk_body
 from sa.sym import atoms_of, comparison
@@ -75,14 +75,12 @@ def offset_table_protocol(chk, io_mod, rid):
     if rd:
         ln, off = [t.id for t in rd[0].targets[0].elts]
         tgt = params_of(fc)[1]
-        ifs = [n for n in walk_body(fc) if isinstance(n, ast.If) and comparison(n.test) is not None]
-        if ifs:
-            c = comparison(ifs[0].test)
-            le = (u(c[0]) == ln and c[1] == "<=" and u(c[2]) == tgt) or (u(c[2]) == ln and c[1] == ">=" and u(c[0]) == tgt)
-            sto = {u(s.targets[0]): u(s.value) for s in ifs[0].body if isinstance(s, ast.Assign)}
-            rem_ok = any(v in (f"{tgt} - {ln}",) for v in sto.values()) and any(v == off for v in sto.values())
-            brk_ok = any(isinstance(x, ast.Break) for x in ifs[0].orelse)
-            ok = le and rem_ok and brk_ok
+        floop = source.enclosing(rd[0], ast.For)
+        stores = [n for n in ast.walk(floop) if isinstance(n, ast.Assign) and n is not rd[0] and isinstance(n.targets[0], ast.Name)] if floop is not None else []
+        brks = [n for n in ast.walk(floop) if isinstance(n, ast.Break)] if floop is not None else []
+        vals = {u(s_.value) for s_ in stores}
+        ok = bool(stores) and bool(brks) and all(holds(s_, f"{ln} <= {tgt}", stop=floop) for s_ in stores) and all(holds(b_, f"{ln} > {tgt}", stop=floop) for b_ in brks) \
+            and off in vals and f"{tgt} - {ln}" in vals
     chk.ob(rid, "reader: largest L <= target, remaining = target - L, stops at the first larger entry", ok, fc if fc else FT, "")
     rr = [n for n in walk_body(fc) if isinstance(n, ast.Return)] if fc else []
     inits = {u(n.targets[0]): n.value for n in walk_body(fc) if isinstance(n, ast.Assign) and isinstance(n.targets[0], ast.Name) and source.enclosing(n, ast.For) is None} if fc else {}
